@@ -309,12 +309,12 @@ def run_job(job, tier, seed):
             cases.append(dict(sig=gen.random_signature(rng, n), ids=ids, first=first, order=gen.random_order(rng, n)))
         layouts = common.build_layouts(res, cases)
         for tag, L in layouts:
-            check_kernels(res, L, rng, tag, tier, jit=False)
+            common.gcall(res, check_kernels, L, rng, tag, tier, jit=False)
             if L.gaDims <= 16:
-                check_operators(res, L, rng, tag, tier)
-        model_correspondence(res, [(t, L) for t, L in layouts if L.gaDims <= 32], rng, 8 if tier == 'quick' else 20, 'nojit')
+                common.gcall(res, check_operators, L, rng, tag, tier)
+        common.gcall(res, model_correspondence, [(t, L) for t, L in layouts if L.gaDims <= 32], rng, 8 if tier == 'quick' else 20, 'nojit')
         for name in ('g3c', 'pga'):
-            check_kernels(res, real.predefined(name), rng, name, tier, jit=False)
+            common.gcall(res, check_kernels, real.predefined(name), rng, name, tier, jit=False)
     elif job == 'kernels_jit':
         cases = [dict(sig=gen.random_signature(rng, n)) for n in (2, 3, 4)]
         n = 3
@@ -322,9 +322,9 @@ def run_job(job, tier, seed):
         cases.append(dict(sig=gen.random_signature(rng, n), ids=ids, first=first, order=gen.random_order(rng, n, 'perm')))
         layouts = common.build_layouts(res, cases, prefix='J')
         for tag, L in layouts:
-            check_kernels(res, L, rng, tag, tier, jit=True)
-        check_operators(res, layouts[0][1], rng, layouts[0][0], tier)
-        model_correspondence(res, layouts, rng, 8, 'jit')
+            common.gcall(res, check_kernels, L, rng, tag, tier, jit=True)
+        common.gcall(res, check_operators, layouts[0][1], rng, layouts[0][0], tier)
+        common.gcall(res, model_correspondence, layouts, rng, 8, 'jit')
     else:
         raise ValueError(job)
     return res
